@@ -361,15 +361,15 @@ impl Harness for C16 {
         for n in 1..=64usize {
             jobs.push(Job::new(format!("split-plain-n{}", n), json!({"kind": "split", "n": n, "shuffle": false})));
         }
-        let nmax_all = if t { 9 } else { 7 };
+        let nmax_all = if t { 10 } else { 7 };
         for n in 2..=nmax_all {
             jobs.push(Job::new(format!("kfold-shuffle-all-n{}", n), json!({"kind": "kfold", "n": n, "shuffle": true})));
             jobs.push(Job::new(format!("split-shuffle-all-n{}", n), json!({"kind": "split", "n": n, "shuffle": true})));
         }
-        for n in 2..=24usize {
+        for n in 2..=(if t { 64usize } else { 24 }) {
             jobs.push(Job::new(format!("cv-plain-n{}", n), json!({"kind": "cv", "n": n, "shuffle": false})));
         }
-        for n in 2..=(if t { 6 } else { 5 }) {
+        for n in 2..=(if t { 7 } else { 5 }) {
             jobs.push(Job::new(format!("cv-shuffle-all-n{}", n), json!({"kind": "cv", "n": n, "shuffle": true})));
         }
         let (dev_hi, dev_b) = if t { (24, 2) } else { (16, 2) };
@@ -379,7 +379,7 @@ impl Harness for C16 {
         }
         if t {
             // three non-identity steps on the smaller sizes
-            for n in (nmax_all + 1)..=13 {
+            for n in (nmax_all + 1)..=14 {
                 jobs.push(Job::new(format!("kfold-shuffle-dev3-n{}", n), json!({"kind": "kfold", "n": n, "shuffle": true, "dev": true})).with_dev_bound(3));
                 jobs.push(Job::new(format!("split-shuffle-dev3-n{}", n), json!({"kind": "split", "n": n, "shuffle": true, "dev": true})).with_dev_bound(3));
             }
@@ -402,8 +402,8 @@ impl Harness for C16 {
                 "builders": mc_sc::builders::BOUNDS,
                 "kfold_unshuffled": "every 2<=k<=n<=64; plus n in {255,256,257,300,513} with k in {2,3,7,64,127..129,200,255..258,300,511..513,n}",
                 "split_unshuffled": format!("every 1<=n<=64 x {} test sizes with floor_f32(n*ts)>=1", TEST_SIZES.len()),
-                "shuffled_all_permutations": format!("every Fisher-Yates answer sequence (all n! permutations) for n<={} (kfold: every k; split: every test size), cv n<={}", nmax_all, if t { 6 } else { 5 }),
-                "shuffled_deviation_bounded": format!("n<={}: every schedule with at most {} non-identity Fisher-Yates steps{}", dev_hi, dev_b, if t { "; n<=13: at most 3" } else { "" }),
+                "shuffled_all_permutations": format!("every Fisher-Yates answer sequence (all n! permutations) for n<={} (kfold: every k; split: every test size), cv n<={}", nmax_all, if t { 7 } else { 5 }),
+                "shuffled_deviation_bounded": format!("n<={}: every schedule with at most {} non-identity Fisher-Yates steps{}", dev_hi, dev_b, if t { "; n<=14: at most 3" } else { "" }),
                 "cross_validation": "spy estimator, every 2<=k<=n<=24 unshuffled",
             }),
         }
